@@ -1,19 +1,14 @@
 package authorize_sender
 
-// C15 — sender authorisation.  Overlay-injected harness (see /verif/BUILDING.md).
+// C15 — sender authorisation.  Overlay-injected in-package harness (see /verif/BUILDING.md);
+// the case generator, header renderer, op-line codec, reference entitlement function and
+// monitor live in internal/verifshim/vc15.
 //
-// One case = one configuration (normalisation settings, actions, prepare_email and
-// user_to_email tables), one connection state and one message (MAIL FROM + header bytes).
-// The message header is RENDERED from a structure (ground truth: which addresses are in
-// which From/Sender field) with display-name tricks, groups, quoting, RFC 2047 words,
-// folding and repeated fields; the real code parses the bytes (go-message textproto +
-// net/mail) and decides.  The op line carries the configuration, what the libraries
-// returned (normalisation results, parse results) and — ignored by the model — the raw
-// bytes and the ground truth, so that a line can be replayed.
-//
-// The monitor evaluates the property on the real decision with a reference entitlement
-// function written from the property text (exists-entry, coarse spelling equivalence,
-// every address of every From field), never consulting the model.
+// Per case: build the real Check (Init with the real configuration directives for the
+// normalisers / actions, the tables assigned directly), parse the rendered header bytes with
+// go-message textproto, run CheckSender and CheckBody on a fresh state, write the
+// correspondence line (the Lean model decides on the shipped library results) and let the
+// monitor judge the real decision.
 
 import (
 	"bufio"
@@ -21,1361 +16,272 @@ import (
 	"context"
 	"errors"
 	"fmt"
-	"encoding/base64"
-	"net/mail"
-	"sort"
+	"go/ast"
+	"go/parser"
+	"go/printer"
+	"go/token"
+	"strconv"
 	"strings"
 	"testing"
-	"unicode"
 
 	"github.com/emersion/go-message/textproto"
 	"github.com/foxcpp/maddy/framework/config"
 	"github.com/foxcpp/maddy/framework/exterrors"
 	"github.com/foxcpp/maddy/framework/log"
 	"github.com/foxcpp/maddy/framework/module"
-	"github.com/foxcpp/maddy/internal/authz"
-	"github.com/foxcpp/maddy/internal/table"
-	"github.com/foxcpp/maddy/internal/testutils"
+	"github.com/foxcpp/maddy/internal/verifshim/vc15"
 	"github.com/foxcpp/maddy/internal/verifshim/vh"
-	"golang.org/x/net/idna"
-	"golang.org/x/text/unicode/norm"
 )
 
-// ---------------------------------------------------------------- case description
-
-type c15Tab struct {
-	kind string // I identity, T testutils.Table (single), S table.Static (multi), M multi with error switch
-	err  bool
-	keys []string // insertion order
-	rows map[string][]string
-}
-
-func (t *c15Tab) add(k string, vs ...string) {
-	if t.rows == nil {
-		t.rows = map[string][]string{}
-	}
-	if _, ok := t.rows[k]; !ok {
-		t.keys = append(t.keys, k)
-	}
-	if t.kind == "T" {
-		t.rows[k] = vs[:1]
-		return
-	}
-	t.rows[k] = vs
-}
-
-type c15Multi struct {
-	m   map[string][]string
-	err error
-}
-
-func (t c15Multi) Lookup(_ context.Context, k string) (string, bool, error) {
-	panic("c15Multi.Lookup must not be used: the table is a MultiTable")
-}
-
-func (t c15Multi) LookupMulti(_ context.Context, k string) ([]string, error) {
-	if t.err != nil {
-		return nil, t.err
-	}
-	return t.m[k], nil
-}
-
-func (t *c15Tab) build() module.Table {
-	switch t.kind {
-	case "I":
-		if t.err {
-			panic("identity table cannot fail")
-		}
-		return &table.Identity{}
-	case "T":
-		m := map[string]string{}
-		for k, v := range t.rows {
-			m[k] = v[0]
-		}
-		var err error
-		if t.err {
-			err = errors.New("c15: table unavailable")
-		}
-		return testutils.Table{M: m, Err: err}
-	case "S":
-		if t.err {
-			panic("static table cannot fail")
-		}
-		mod, err := table.NewStatic("table.static", "c15", nil, nil)
-		if err != nil {
-			panic(err)
-		}
-		var nodes []config.Node
-		for _, k := range t.keys {
-			nodes = append(nodes, config.Node{Name: "entry", Args: append([]string{k}, t.rows[k]...)})
-		}
-		if err := mod.(*table.Static).Init(config.NewMap(nil, config.Node{Children: nodes})); err != nil {
-			panic(err)
-		}
-		return mod.(module.Table)
-	case "M":
-		var err error
-		if t.err {
-			err = errors.New("c15: table unavailable")
-		}
-		return c15Multi{m: t.rows, err: err}
-	}
-	panic("bad table kind " + t.kind)
-}
-
-func (t *c15Tab) groups(tag string) string {
-	var b strings.Builder
-	fmt.Fprintf(&b, " | %s %s %s", strings.ToUpper(tag), t.kind, b01(t.err))
-	for _, k := range t.keys {
-		fmt.Fprintf(&b, " | %s %s", tag, vh.HexRunes(k))
-		for _, v := range t.rows[k] {
-			b.WriteString(" " + vh.HexRunes(v))
-		}
-	}
-	return b.String()
-}
-
-// lookup as the reference sees the table: all values configured for the key.
-func (t *c15Tab) refValues(k string) (vals []string, found bool) {
-	if t.kind == "I" {
-		return []string{k}, true
-	}
-	v, ok := t.rows[k]
-	return v, ok && len(v) > 0
-}
-
-type c15Addr struct{ local, domain string }
-
-func (a c15Addr) String() string { return a.local + "@" + a.domain }
-
-type c15Case struct {
-	checkHeader      bool
-	ua, na, ea       string // r q i
-	authNorm, fromNm string // names in authz.NormalizeFuncs
-	prep, u2e        c15Tab
-	conn             bool
-	user             string
-	mailFrom         string
-	raw              []byte      // header bytes, CRLF lines, without the terminating blank line
-	gtKnown          bool        // ground truth below is authoritative (well-formed rendering)
-	gtFrom           [][]c15Addr // per From field, in message order
-	gtSender         [][]c15Addr // per Sender field (0 or 1 address each)
-}
-
-func b01(b bool) string {
-	if b {
-		return "1"
-	}
-	return "0"
-}
-
-// ---------------------------------------------------------------- running the real code
-
-type c15Run struct {
-	sender, body module.CheckResult
-	fromVals     []string
-	senderVals   []string
-	hdrErr       error
-}
-
-func c15Action(s string) string {
-	switch s {
-	case "r":
-		return "reject"
-	case "q":
-		return "quarantine"
-	default:
-		return "ignore"
-	}
-}
-
-func c15NewCheck(cs *c15Case) *Check {
+func c15NewCheck(cs *vc15.Case) *Check {
 	mod, err := New(modName, "c15", nil, nil)
 	if err != nil {
 		panic(err)
 	}
 	c := mod.(*Check)
-	yn := "no"
-	if cs.checkHeader {
-		yn = "yes"
-	}
-	nodes := []config.Node{
-		{Name: "check_header", Args: []string{yn}},
-		{Name: "unauth_action", Args: []string{c15Action(cs.ua)}},
-		{Name: "no_match_action", Args: []string{c15Action(cs.na)}},
-		{Name: "err_action", Args: []string{c15Action(cs.ea)}},
-		{Name: "auth_normalize", Args: []string{cs.authNorm}},
-		{Name: "from_normalize", Args: []string{cs.fromNm}},
-	}
-	if err := c.Init(config.NewMap(map[string]interface{}{}, config.Node{Children: nodes})); err != nil {
+	if err := c.Init(config.NewMap(map[string]interface{}{}, config.Node{Children: cs.ConfigNodes()})); err != nil {
 		panic(fmt.Sprintf("Init: %v", err))
 	}
 	c.log = log.Logger{Out: log.NopOutput{}}
-	c.emailPrepare = cs.prep.build()
-	c.userToEmail = cs.u2e.build()
+	c.emailPrepare = cs.Prep.Build()
+	c.userToEmail = cs.U2E.Build()
 	return c
 }
 
-func c15Exec(cs *c15Case) c15Run {
+// names of the refusals, by the message text of the SMTPError literal
+var c15Messages = map[string]string{
+	"Authentication required":                      "authRequired",
+	"Unable to normalize sender address":           "normFrom",
+	"Unable to normalize authorization username":   "normAuth",
+	"Internal error during policy check":           "internal",
+	"Unauthorized use of sender address":           "noMatch",
+	"Missing From header":                          "missingFrom",
+	"Malformed From header":                        "malformedFrom",
+	"Multiple From addresses are not allowed":      "multipleFromAddrs",
+	"Multiple From header fields are not allowed":  "repeatedFrom",
+	"Malformed Sender header":                      "malformedSender",
+	"Multiple Sender header fields are not allowed": "repeatedSender",
+}
+
+func c15Stage(res module.CheckResult) vc15.StageObs {
+	o := vc15.StageObs{Reason: "ok", Reject: res.Reject, Quarantine: res.Quarantine}
+	if res.Reason == nil {
+		return o
+	}
+	var se *exterrors.SMTPError
+	if !errors.As(res.Reason, &se) {
+		o.Reason, o.Codes = "other("+res.Reason.Error()+")", "0:0.0.0"
+		return o
+	}
+	name, ok := c15Messages[se.Message]
+	if !ok {
+		name = "other(" + se.Message + ")"
+	}
+	o.Reason = name
+	o.Codes = fmt.Sprintf("%d:%d.%d.%d", se.Code, se.EnhancedCode[0], se.EnhancedCode[1], se.EnhancedCode[2])
+	return o
+}
+
+// ---------------------------------------------------------------- facts read off the source (T1)
+
+// c15Facts parses the anchored source files of the CURRENT tree and writes, as correspondence
+// cases, the facts the hand-written model was built from: for every refusal site
+// `s.c.<x>Action.Apply(module.CheckResult{Reason: &exterrors.SMTPError{…}})` the action field,
+// codes and message; the list of messages; the entitlement condition of AuthorizeEmailUse; the
+// header accessors CheckBody uses.
+func c15Facts(out *vh.Out) {
+	fset := token.NewFileSet()
+	f, err := parser.ParseFile(fset, "authorize_sender.go", nil, 0)
+	if err != nil {
+		out.Violation("C15/facts-unreadable", "C15 fact messages", err.Error())
+		return
+	}
+	lit := func(e ast.Expr) string {
+		if bl, ok := e.(*ast.BasicLit); ok {
+			if bl.Kind == token.STRING {
+				s, _ := strconv.Unquote(bl.Value)
+				return s
+			}
+			return bl.Value
+		}
+		return "?"
+	}
+	var messages []string
+	seen := map[string]bool{}
+	nSite := 0
+	ast.Inspect(f, func(n ast.Node) bool {
+		call, ok := n.(*ast.CallExpr)
+		if !ok || len(call.Args) != 1 {
+			return true
+		}
+		sel, ok := call.Fun.(*ast.SelectorExpr)
+		if !ok || sel.Sel.Name != "Apply" {
+			return true
+		}
+		act, ok := sel.X.(*ast.SelectorExpr)
+		if !ok {
+			return true
+		}
+		res, ok := call.Args[0].(*ast.CompositeLit)
+		if !ok {
+			return true
+		}
+		code, enh, msg := "?", "?", "?"
+		for _, el := range res.Elts {
+			kv, ok := el.(*ast.KeyValueExpr)
+			if !ok || fmt.Sprint(kv.Key) != "Reason" {
+				continue
+			}
+			un, ok := kv.Value.(*ast.UnaryExpr)
+			if !ok {
+				continue
+			}
+			se, ok := un.X.(*ast.CompositeLit)
+			if !ok {
+				continue
+			}
+			for _, el2 := range se.Elts {
+				kv2, ok := el2.(*ast.KeyValueExpr)
+				if !ok {
+					continue
+				}
+				switch fmt.Sprint(kv2.Key) {
+				case "Code":
+					code = lit(kv2.Value)
+				case "Message":
+					msg = lit(kv2.Value)
+				case "EnhancedCode":
+					if cl, ok := kv2.Value.(*ast.CompositeLit); ok && len(cl.Elts) == 3 {
+						enh = lit(cl.Elts[0]) + "." + lit(cl.Elts[1]) + "." + lit(cl.Elts[2])
+					}
+				}
+			}
+		}
+		out.Corr(fmt.Sprintf("C15 site %d %s", nSite, vh.HexRunes(msg)), fmt.Sprintf("%s %s:%s", act.Sel.Name, code, enh))
+		out.Stat("facts.site." + act.Sel.Name)
+		nSite++
+		if !seen[msg] {
+			seen[msg] = true
+			messages = append(messages, vh.HexRunes(msg))
+		}
+		return true
+	})
+	out.Corr("C15 fact messages", strings.Join(messages, " "))
+
+	// the hdr.… calls of CheckBody, in source order
+	var calls []string
+	for _, d := range f.Decls {
+		fd, ok := d.(*ast.FuncDecl)
+		if !ok || fd.Name.Name != "CheckBody" {
+			continue
+		}
+		ast.Inspect(fd.Body, func(n ast.Node) bool {
+			call, ok := n.(*ast.CallExpr)
+			if !ok {
+				return true
+			}
+			sel, ok := call.Fun.(*ast.SelectorExpr)
+			if !ok {
+				return true
+			}
+			if id, ok := sel.X.(*ast.Ident); ok && id.Name == "hdr" && len(call.Args) == 1 {
+				calls = append(calls, sel.Sel.Name+":"+lit(call.Args[0]))
+			}
+			return true
+		})
+	}
+	out.Corr("C15 fact hdrcalls", vh.HexRunes(strings.Join(calls, " ")))
+
+	// the entitlement condition of authz.AuthorizeEmailUse
+	lf, err := parser.ParseFile(fset, "../../authz/lookup.go", nil, 0)
+	if err != nil {
+		out.Violation("C15/facts-unreadable", "C15 fact entcond", err.Error())
+		return
+	}
+	var conds []string
+	for _, d := range lf.Decls {
+		fd, ok := d.(*ast.FuncDecl)
+		if !ok || fd.Name.Name != "AuthorizeEmailUse" {
+			continue
+		}
+		ast.Inspect(fd.Body, func(n ast.Node) bool {
+			is, ok := n.(*ast.IfStmt)
+			if !ok {
+				return true
+			}
+			if be, ok := is.Cond.(*ast.BinaryExpr); ok && be.Op == token.LOR {
+				var b bytes.Buffer
+				printer.Fprint(&b, fset, is.Cond)
+				conds = append(conds, b.String())
+			}
+			return true
+		})
+	}
+	out.Corr("C15 fact entcond", vh.HexRunes(strings.Join(conds, " ;; ")))
+}
+
+func c15Exec(cs *vc15.Case) (vc15.Run, error) {
 	c := c15NewCheck(cs)
 	meta := &module.MsgMetadata{ID: "c15"}
-	if cs.conn {
-		meta.Conn = &module.ConnState{AuthUser: cs.user}
+	if cs.Conn {
+		meta.Conn = &module.ConnState{AuthUser: cs.User}
 	}
-	var r c15Run
-	hdr, err := textproto.ReadHeader(bufio.NewReader(bytes.NewReader(append(append([]byte{}, cs.raw...), '\r', '\n'))))
-	r.hdrErr = err
-	r.fromVals = hdr.Values("From")
-	r.senderVals = hdr.Values("Sender")
+	var r vc15.Run
+	hdr, err := textproto.ReadHeader(bufio.NewReader(bytes.NewReader(append(append([]byte{}, cs.Raw...), '\r', '\n'))))
+	if err != nil {
+		return r, err
+	}
+	r.FromVals = hdr.Values("From")
+	r.SenderVals = hdr.Values("Sender")
 
 	ctx := context.Background()
 	st, err := c.CheckStateForMsg(ctx, meta)
 	if err != nil {
 		panic(err)
 	}
-	r.sender = st.CheckSender(ctx, cs.mailFrom)
-	r.body = st.CheckBody(ctx, hdr, nil)
+	r.Sender = c15Stage(st.CheckSender(ctx, cs.MailFrom))
+	r.Body = c15Stage(st.CheckBody(ctx, hdr, nil))
 	st.Close()
-	return r
+	return r, nil
 }
 
-func c15Reason(res module.CheckResult) string {
-	if res.Reason == nil {
-		return "ok"
-	}
-	msg := res.Reason.Error()
-	code := 0
-	var se *exterrors.SMTPError
-	if errors.As(res.Reason, &se) {
-		msg, code = se.Message, se.Code
-	}
-	switch {
-	case code == 530:
-		return "authRequired"
-	case code == 553 && strings.Contains(msg, "Unable to normalize sender"):
-		return "normFrom"
-	case code == 535:
-		return "normAuth"
-	case code == 454:
-		return "internal"
-	case code == 553 && strings.Contains(msg, "Unauthorized use"):
-		return "noMatch"
-	case strings.Contains(msg, "Missing From header"):
-		return "missingFrom"
-	case strings.Contains(msg, "Malformed From header"):
-		return "malformedFrom"
-	case strings.Contains(msg, "Multiple From addresses"):
-		return "multipleFromAddrs"
-	case strings.Contains(msg, "Multiple From header fields"):
-		return "repeatedFrom"
-	case strings.Contains(msg, "Malformed Sender header"):
-		return "malformedSender"
-	case strings.Contains(msg, "Multiple Sender header fields"):
-		return "repeatedSender"
-	}
-	return fmt.Sprintf("other(%d,%s)", code, msg)
-}
-
-func c15Obs(res module.CheckResult) string {
-	return c15Reason(res) + "/" + b01(res.Reject) + b01(res.Quarantine)
-}
-
-// ---------------------------------------------------------------- op line
-
-func c15AddrTok(a c15Addr) string { return vh.HexRunes(a.local) + "/" + vh.HexRunes(a.domain) }
-
-func c15NormRow(tag, name, in string) string {
-	out, err := authz.NormalizeFuncs[name](in)
-	if err != nil {
-		return fmt.Sprintf(" | %s %s 0 -", tag, vh.HexRunes(in))
-	}
-	return fmt.Sprintf(" | %s %s 1 %s", tag, vh.HexRunes(in), vh.HexRunes(out))
-}
-
-func c15OpLine(cs *c15Case, r *c15Run) string {
-	var b strings.Builder
-	fmt.Fprintf(&b, "C15 run %s %s %s %s %s %s %s", b01(cs.checkHeader), cs.ua, cs.na, cs.ea, b01(cs.conn),
-		vh.HexRunes(cs.user), vh.HexRunes(cs.mailFrom))
-	fmt.Fprintf(&b, " | N %s %s", cs.authNorm, cs.fromNm)
-	b.WriteString(cs.prep.groups("p"))
-	b.WriteString(cs.u2e.groups("u"))
-	// what the libraries returned
-	fnIn := map[string]bool{cs.mailFrom: true}
-	var fgroups []string
-	for _, v := range r.fromVals {
-		l, err := mail.ParseAddressList(v)
-		g := " | F " + b01(v == "") + " " + b01(err == nil)
-		if err == nil {
-			for _, a := range l {
-				g += " " + vh.HexRunes(a.Address)
-				fnIn[a.Address] = true
-			}
-		}
-		fgroups = append(fgroups, g)
-	}
-	for _, v := range r.senderVals {
-		a, err := mail.ParseAddress(v)
-		g := " | S " + b01(v == "") + " " + b01(err == nil)
-		if err == nil {
-			g += " " + vh.HexRunes(a.Address)
-			fnIn[a.Address] = true
-		}
-		fgroups = append(fgroups, g)
-	}
-	ins := make([]string, 0, len(fnIn))
-	for k := range fnIn {
-		ins = append(ins, k)
-	}
-	sort.Strings(ins)
-	for _, in := range ins {
-		b.WriteString(c15NormRow("fn", cs.fromNm, in))
-	}
-	b.WriteString(c15NormRow("an", cs.authNorm, cs.user))
-	for _, g := range fgroups {
-		b.WriteString(g)
-	}
-	// replay material, ignored by the model
-	fmt.Fprintf(&b, " | H %s | G %s", vh.HexBytes(cs.raw), b01(cs.gtKnown))
-	for _, f := range cs.gtFrom {
-		b.WriteString(" | GF")
-		for _, a := range f {
-			b.WriteString(" " + c15AddrTok(a))
-		}
-	}
-	for _, f := range cs.gtSender {
-		b.WriteString(" | GS")
-		for _, a := range f {
-			b.WriteString(" " + c15AddrTok(a))
-		}
-	}
-	return b.String()
-}
-
-// ---------------------------------------------------------------- reference entitlement (monitor)
-
-// coarse spelling equivalence of the property: letter case, Unicode normalisation (incl. width) and
-// IDN A-label/U-label spellings are the same address.
-func c15CoarseText(s string) string {
-	for i := 0; i < 3; i++ {
-		s = norm.NFKC.String(strings.ToLower(norm.NFKC.String(s)))
-	}
-	return s
-}
-
-func c15CoarseDomain(d string) string {
-	d = strings.TrimSuffix(d, ".")
-	// A-labels in any letter case
-	labels := strings.Split(d, ".")
-	for i, l := range labels {
-		if len(l) >= 4 && strings.EqualFold(l[:4], "xn--") {
-			if u, err := idna.ToUnicode(strings.ToLower(l)); err == nil {
-				labels[i] = u
-			}
-		}
-	}
-	return c15CoarseText(strings.Join(labels, "."))
-}
-
-func c15SplitLast(s string) (string, string, bool) {
-	i := strings.LastIndex(s, "@")
-	if i < 0 {
-		return s, "", false
-	}
-	return s[:i], s[i+1:], true
-}
-
-func c15CoarseWhole(s string) string {
-	l, d, ok := c15SplitLast(s)
-	if !ok {
-		return c15CoarseText(s)
-	}
-	return c15CoarseText(l) + "@" + c15CoarseDomain(d)
-}
-
-// entries the configured mapping gives the authenticated user
-func c15RefEntries(cs *c15Case) []string {
-	if cs.u2e.err {
-		return nil
-	}
-	nu, err := authz.NormalizeFuncs[cs.authNorm](cs.user)
-	if err != nil {
-		return nil
-	}
-	vals, _ := cs.u2e.refValues(nu)
-	return vals
-}
-
-// is one concrete address (whole string; domain part known separately when hasDomain) covered by an entry?
-func c15Covered(entries []string, whole, domain string, hasDomain bool) bool {
-	for _, e := range entries {
-		if e == "*" {
-			return true
-		}
-		if hasDomain && domain != "" && c15CoarseDomain(e) == c15CoarseDomain(domain) && !strings.Contains(e, "@") {
-			return true
-		}
-		if c15CoarseWhole(e) == c15CoarseWhole(whole) {
-			return true
-		}
-	}
-	return false
-}
-
-// refEntitled: may the user use this address under the configured mapping?
-// `whole` is the address string; local/domain are its parts when structurally known.
-func c15RefEntitled(cs *c15Case, whole, domain string, hasDomain bool) bool {
-	entries := c15RefEntries(cs)
-	if len(entries) == 0 {
-		return false
-	}
-	// prepare_email: the address may be an alias the configuration maps to other addresses
-	if cs.prep.kind != "I" && !cs.prep.err {
-		if key, err := authz.NormalizeFuncs[cs.fromNm](whole); err == nil {
-			if vals, ok := cs.prep.refValues(key); ok {
-				for _, v := range vals {
-					_, d, has := c15SplitLast(v)
-					if c15Covered(entries, v, d, has) {
-						return true
-					}
-				}
-				return false
-			}
-		}
-	}
-	return c15Covered(entries, whole, domain, hasDomain)
-}
-
-func c15Monitor(out *vh.Out, cs *c15Case, r *c15Run, op string) {
-	if !cs.conn {
-		// locally generated message: not a client; the check must not interfere
-		if r.sender.Reason != nil || r.body.Reason != nil {
-			out.Violation("C15/local-message-refused", op, c15Obs(r.sender)+" "+c15Obs(r.body))
-		}
-		out.Stat("monitor.local")
-		return
-	}
-	allReject := cs.ua == "r" && cs.na == "r" && cs.ea == "r"
-	// unauthenticated clients are refused
-	if cs.user == "" {
-		if r.sender.Reason == nil {
-			out.Violation("C15/unauthenticated-accepted", op, "sender stage passed without authentication")
-		} else if cs.ua == "r" && !r.sender.Reject {
-			out.Violation("C15/unauthenticated-not-rejected", op, c15Obs(r.sender))
-		}
-		if cs.checkHeader && r.body.Reason == nil {
-			out.Violation("C15/unauthenticated-accepted", op, "body stage passed without authentication")
-		}
-		out.Stat("monitor.unauth")
-	}
-	// a refusal is enforced as configured
-	for _, res := range []module.CheckResult{r.sender, r.body} {
-		if res.Reason != nil && cs.ua == cs.na && cs.na == cs.ea {
-			if res.Reject != (cs.ua == "r") || res.Quarantine != (cs.ua == "q") {
-				out.Violation("C15/action-not-applied", op, c15Obs(res))
-			}
-		}
-		if res.Reason == nil && (res.Reject || res.Quarantine) {
-			out.Violation("C15/flag-without-reason", op, c15Obs(res))
-		}
-	}
-	// envelope sender
-	if r.sender.Reason == nil && cs.user != "" {
-		_, d, has := c15SplitLast(cs.mailFrom)
-		if !c15RefEntitled(cs, cs.mailFrom, d, has) {
-			out.Violation("C15/envelope-sender-not-entitled", op, fmt.Sprintf("user %q accepted MAIL FROM %q", cs.user, cs.mailFrom))
-		}
-		out.Stat("monitor.envelope-pass")
-	}
-	// header author
-	if cs.checkHeader && r.body.Reason == nil && cs.user != "" {
-		from, sender := cs.gtFrom, cs.gtSender
-		if !cs.gtKnown {
-			// mutated (possibly ill-formed) bytes: the only available reading is the library's
-			from, sender = nil, nil
-			for _, v := range r.fromVals {
-				l, _ := mail.ParseAddressList(v)
-				var f []c15Addr
-				for _, a := range l {
-					lp, d, _ := c15SplitLast(a.Address)
-					f = append(f, c15Addr{lp, d})
-				}
-				from = append(from, f)
-			}
-			for _, v := range r.senderVals {
-				var f []c15Addr
-				if a, err := mail.ParseAddress(v); err == nil {
-					lp, d, _ := c15SplitLast(a.Address)
-					f = append(f, c15Addr{lp, d})
-				}
-				sender = append(sender, f)
-			}
-			out.Stat("monitor.header-pass.parsed-reading")
-		} else {
-			out.Stat("monitor.header-pass.ground-truth")
-		}
-		nFrom, fromOK := 0, true
-		for _, f := range from {
-			for _, a := range f {
-				nFrom++
-				if !c15RefEntitled(cs, a.String(), a.domain, true) {
-					fromOK = false
-				}
-			}
-		}
-		nSender, senderOK := 0, true
-		for _, f := range sender {
-			for _, a := range f {
-				nSender++
-				if !c15RefEntitled(cs, a.String(), a.domain, true) {
-					senderOK = false
-				}
-			}
-		}
-		switch {
-		case nFrom > 0 && fromOK:
-			out.Stat("monitor.author.from")
-		case nSender > 0 && senderOK:
-			out.Stat("monitor.author.sender")
-		case nFrom == 0 && nSender == 0:
-			out.Violation("C15/accepted-without-author", op, "no From and no Sender address, header check passed")
-		default:
-			sig := "C15/header-author-not-entitled"
-			if len(from) > 1 {
-				sig = "C15/repeated-from-field-not-examined"
-			} else if len(sender) > 1 && !(nFrom > 0 && fromOK) {
-				sig = "C15/repeated-sender-field-not-examined"
-			}
-			out.Violation(sig, op, fmt.Sprintf("user %q accepted From %v Sender %v", cs.user, from, sender))
-		}
-	}
-	if allReject && !r.sender.Reject && !r.body.Reject {
-		out.Stat("monitor.accepted")
-	} else if allReject {
-		out.Stat("monitor.rejected")
-	}
-}
-
-// ---------------------------------------------------------------- one case end to end
-
-func c15Do(out *vh.Out, cs *c15Case) {
-	var r c15Run
+func c15Do(out *vh.Out, cs *vc15.Case) {
+	var r vc15.Run
+	var err error
+	panicked := false
 	func() {
 		defer func() {
 			if p := recover(); p != nil {
-				out.Violation("C15/panic", "C15 run (panic before op line) H "+vh.HexBytes(cs.raw), fmt.Sprint(p))
+				panicked = true
+				out.Violation("C15/panic", vc15.SessionOpLine(cs), fmt.Sprint(p))
 			}
 		}()
-		r = c15Exec(cs)
+		r, err = c15Exec(cs)
 	}()
-	if r.hdrErr != nil {
+	if panicked {
+		return
+	}
+	if err != nil {
 		out.Stat("skip.header-unreadable")
 		return
 	}
-	op := c15OpLine(cs, &r)
-	out.Corr(op, c15Obs(r.sender)+" "+c15Obs(r.body))
-	c15Monitor(out, cs, &r, op)
-	// distribution
-	out.Stat("sender." + c15Reason(r.sender))
-	out.Stat("body." + c15Reason(r.body))
-	out.Stat("cfg.authnorm." + cs.authNorm)
-	out.Stat("cfg.fromnorm." + cs.fromNm)
-	out.Stat("cfg.prepare." + cs.prep.kind + b01(cs.prep.err))
-	out.Stat("cfg.u2e." + cs.u2e.kind + b01(cs.u2e.err))
-	out.Stat("cfg.actions." + cs.ua + cs.na + cs.ea)
-	out.Stat(fmt.Sprintf("hdr.fromfields.%d", len(r.fromVals)))
-	out.Stat(fmt.Sprintf("hdr.senderfields.%d", len(r.senderVals)))
-	out.Stat("hdr.gtknown." + b01(cs.gtKnown))
-	if cs.gtKnown {
-		// does the library's reading agree with the structure the bytes were rendered from?
-		agree := len(r.fromVals) == len(cs.gtFrom)
-		for i := 0; agree && i < len(r.fromVals); i++ {
-			l, err := mail.ParseAddressList(r.fromVals[i])
-			if len(cs.gtFrom[i]) == 0 && len(l) == 0 {
-				continue
-			}
-			if err != nil || len(l) != len(cs.gtFrom[i]) {
-				agree = false
-				break
-			}
-			for j, a := range l {
-				if a.Address != cs.gtFrom[i][j].String() {
-					agree = false
-				}
-			}
-		}
-		out.Stat("hdr.parse-agrees-with-structure." + b01(agree))
-	}
+	op := vc15.OpLine(cs, &r)
+	out.Corr(op, r.Sender.String()+" "+r.Body.String())
+	vc15.Monitor(out, cs, &r, op)
+	out.Stat("sender." + r.Sender.Reason)
+	out.Stat("body." + r.Body.Reason)
+	vc15.Distribution(out, cs, &r)
 }
-
-// ---------------------------------------------------------------- generators
-
-var c15Domains = []string{"example.org", "example.com", "münchen.de", "пример.рф", "corp.example.net", "bücher.example"}
-var c15Locals = []string{"alice", "bob", "carol", "rené", "дима", "first.last", "a+tag", "o'neil", "big.boss", "straße", "sigmaς"}
-var c15Users = []string{"alice", "bob@example.org", "carol", "rené", "дима@пример.рф", "big.boss@corp.example.net", "example.org", "svc-mailer", "straße"}
-
-var c15NormNames = []string{"auto", "precis_casefold_email", "precis_casefold", "precis_email", "precis", "casefold", "noop"}
-
-func c15Upper(s string) string {
-	var b strings.Builder
-	for _, ch := range s {
-		up := unicode.ToUpper(ch)
-		if unicode.ToLower(up) == ch {
-			b.WriteRune(up)
-		} else {
-			b.WriteRune(ch)
-		}
-	}
-	return b.String()
-}
-
-func c15MixCase(r *vh.Rng, s string) string {
-	var b strings.Builder
-	for _, ch := range s {
-		up := unicode.ToUpper(ch)
-		if r.Bool() && unicode.ToLower(up) == ch {
-			b.WriteRune(up)
-		} else {
-			b.WriteRune(ch)
-		}
-	}
-	return b.String()
-}
-
-func c15Wide(r *vh.Rng, s string) string {
-	var b strings.Builder
-	for _, ch := range s {
-		if ch >= 'a' && ch <= 'z' && r.Chance(40) {
-			b.WriteRune(ch - 'a' + 'ａ')
-		} else {
-			b.WriteRune(ch)
-		}
-	}
-	return b.String()
-}
-
-func c15TextVariant(r *vh.Rng, s string) string {
-	switch r.Intn(6) {
-	case 0:
-		return c15Upper(s)
-	case 1:
-		return c15MixCase(r, s)
-	case 2:
-		return norm.NFD.String(s)
-	case 3:
-		return norm.NFD.String(c15MixCase(r, s))
-	case 4:
-		return c15Wide(r, s)
-	}
-	return s
-}
-
-func c15DomainVariant(r *vh.Rng, d string) string {
-	switch r.Intn(6) {
-	case 0:
-		return c15Upper(d)
-	case 1:
-		if a, err := idna.ToASCII(d); err == nil {
-			return a
-		}
-	case 2:
-		if a, err := idna.ToASCII(d); err == nil {
-			return strings.ToUpper(a)
-		}
-	case 3:
-		return norm.NFD.String(d)
-	case 4:
-		return c15MixCase(r, d)
-	}
-	return d
-}
-
-func c15AddrVariant(r *vh.Rng, a c15Addr) c15Addr {
-	if r.Chance(35) {
-		return a
-	}
-	out := a
-	if r.Bool() {
-		out.local = c15TextVariant(r, a.local)
-	}
-	if r.Bool() {
-		out.domain = c15DomainVariant(r, a.domain)
-	}
-	return out
-}
-
-func c15RandAddr(r *vh.Rng) c15Addr {
-	return c15Addr{c15Locals[r.Intn(len(c15Locals))], c15Domains[r.Intn(len(c15Domains))]}
-}
-
-// near misses of an entitled address / domain
-func c15NearMiss(r *vh.Rng, a c15Addr) c15Addr {
-	switch r.Intn(8) {
-	case 0:
-		return c15Addr{a.local, "sub." + a.domain}
-	case 1:
-		return c15Addr{a.local, a.domain + ".evil.example"}
-	case 2:
-		return c15Addr{a.local, "evil-" + a.domain}
-	case 3:
-		return c15Addr{a.String(), "evil.example"} // quoted local part containing the entitled address
-	case 4:
-		return c15Addr{a.local + "x", a.domain}
-	case 5:
-		return c15Addr{a.local, strings.TrimSuffix(a.domain, a.domain[strings.LastIndex(a.domain, "."):]) + ".test"}
-	case 6:
-		return c15Addr{"*", a.domain + "x"}
-	default:
-		return c15Addr{a.domain, a.local + ".example"} // swapped
-	}
-}
-
-type c15World struct {
-	entitled []c15Addr // concrete addresses the sending user is entitled to (canonical spelling)
-	entDoms  []string  // domains the user is entitled to
-	star     bool
-	others   []c15Addr // addresses of other users
-}
-
-func c15NormOrSelf(name, s string) string {
-	if o, err := authz.NormalizeFuncs[name](s); err == nil {
-		return o
-	}
-	return s
-}
-
-func c15GenCase(r *vh.Rng) *c15Case {
-	cs := &c15Case{checkHeader: !r.Chance(8), ua: "r", na: "r", ea: "r", conn: !r.Chance(5), gtKnown: true}
-	if r.Chance(25) {
-		cs.ua, cs.na, cs.ea = r.Pick("r", "q", "i"), r.Pick("r", "q", "i"), r.Pick("r", "q", "i")
-	} else if r.Chance(10) {
-		a := r.Pick("q", "i")
-		cs.ua, cs.na, cs.ea = a, a, a
-	}
-	cs.authNorm = c15NormNames[r.Intn(len(c15NormNames))]
-	cs.fromNm = c15NormNames[r.Intn(len(c15NormNames))]
-	if r.Chance(40) {
-		cs.authNorm, cs.fromNm = "auto", "auto" // the defaults
-	}
-
-	// --- who is who
-	userCanon := c15Users[r.Intn(len(c15Users))]
-	w := &c15World{}
-	cs.u2e.kind = r.Pick("I", "T", "S", "S", "M")
-	if cs.u2e.kind == "T" || cs.u2e.kind == "M" {
-		cs.u2e.err = r.Chance(6)
-	}
-	keyOf := func(u string) string {
-		if r.Chance(85) {
-			return c15NormOrSelf(cs.authNorm, u)
-		}
-		return u
-	}
-	entrySpelling := func(s string, isAddr bool) string {
-		if r.Chance(80) {
-			if isAddr {
-				return c15NormOrSelf(cs.fromNm, s)
-			}
-			return c15NormOrSelf("casefold", norm.NFC.String(s))
-		}
-		if isAddr {
-			l, d, _ := c15SplitLast(s)
-			return c15AddrVariant(r, c15Addr{l, d}).String()
-		}
-		return c15DomainVariant(r, s)
-	}
-	if cs.u2e.kind == "I" {
-		// identity: the user name itself is the entry (address, domain or plain name)
-		if l, d, ok := c15SplitLast(userCanon); ok {
-			w.entitled = append(w.entitled, c15Addr{l, d})
-		} else if strings.Contains(userCanon, ".") {
-			w.entDoms = append(w.entDoms, userCanon)
-		}
-	} else {
-		// the sending user's row
-		var vals []string
-		n := 1 + r.Intn(3)
-		if cs.u2e.kind == "T" {
-			n = 1
-		}
-		for i := 0; i < n; i++ {
-			switch k := r.Intn(10); {
-			case k < 6:
-				a := c15RandAddr(r)
-				w.entitled = append(w.entitled, a)
-				vals = append(vals, entrySpelling(a.String(), true))
-			case k < 9:
-				d := c15Domains[r.Intn(len(c15Domains))]
-				w.entDoms = append(w.entDoms, d)
-				vals = append(vals, entrySpelling(d, false))
-			default:
-				w.star = true
-				vals = append(vals, "*")
-			}
-		}
-		if !r.Chance(7) { // sometimes the user has no row at all
-			cs.u2e.add(keyOf(userCanon), vals...)
-		} else {
-			w.entitled, w.entDoms, w.star = nil, nil, false
-		}
-		// other users' rows
-		for i, n := 0, r.Intn(3); i < n; i++ {
-			ou := c15Users[r.Intn(len(c15Users))]
-			if ou == userCanon {
-				continue
-			}
-			a := c15RandAddr(r)
-			w.others = append(w.others, a)
-			vs := []string{entrySpelling(a.String(), true)}
-			if cs.u2e.kind != "T" && r.Bool() {
-				d := c15Domains[r.Intn(len(c15Domains))]
-				vs = append(vs, d)
-				w.others = append(w.others, c15Addr{"someone", d})
-			}
-			cs.u2e.add(keyOf(ou), vs...)
-		}
-	}
-	for len(w.others) < 2 {
-		w.others = append(w.others, c15RandAddr(r))
-	}
-
-	// --- user spelling
-	cs.user = userCanon
-	switch k := r.Intn(20); {
-	case k < 2:
-		cs.user = ""
-	case k < 9:
-		cs.user = c15TextVariant(r, userCanon)
-		if l, d, ok := c15SplitLast(userCanon); ok && r.Bool() {
-			cs.user = c15AddrVariant(r, c15Addr{l, d}).String()
-		}
-	case k == 9:
-		cs.user = r.Pick("mallory", "al ice", "alice​", "ali\u0000ce", "*", "x@", "@example.org", "ｍallory")
-	}
-
-	// --- prepare_email
-	cs.prep.kind = "I"
-	var aliases []c15Addr // alias addresses that map to something
-	if r.Chance(25) {
-		cs.prep.kind = r.Pick("T", "S", "M")
-		if cs.prep.kind != "S" {
-			cs.prep.err = r.Chance(8)
-		}
-		for i, n := 0, 1+r.Intn(2); i < n; i++ {
-			alias := c15Addr{r.Pick("sales", "info", "alias", "ops"), c15Domains[r.Intn(len(c15Domains))]}
-			var targets []string
-			for j, m := 0, 1+r.Intn(2); j < m; j++ {
-				switch k := r.Intn(10); {
-				case k < 5 && len(w.entitled) > 0:
-					targets = append(targets, c15NormOrSelf(cs.fromNm, w.entitled[r.Intn(len(w.entitled))].String()))
-				case k < 8:
-					targets = append(targets, w.others[r.Intn(len(w.others))].String())
-				case k == 8:
-					targets = append(targets, r.Pick("no-at-sign", "@nolocal.example", "nodomain@", ""))
-				default:
-					targets = append(targets, c15RandAddr(r).String())
-				}
-			}
-			key := alias.String()
-			if r.Chance(85) {
-				key = c15NormOrSelf(cs.fromNm, key)
-			}
-			cs.prep.add(key, targets...)
-			aliases = append(aliases, alias)
-		}
-	}
-
-	// --- address picker
-	pick := func() c15Addr {
-		switch k := r.Intn(20); {
-		case k < 7 && len(w.entitled) > 0:
-			return c15AddrVariant(r, w.entitled[r.Intn(len(w.entitled))])
-		case k < 10 && len(w.entDoms) > 0:
-			return c15AddrVariant(r, c15Addr{c15Locals[r.Intn(len(c15Locals))], w.entDoms[r.Intn(len(w.entDoms))]})
-		case k < 13:
-			return c15AddrVariant(r, w.others[r.Intn(len(w.others))])
-		case k < 15 && len(aliases) > 0:
-			return c15AddrVariant(r, aliases[r.Intn(len(aliases))])
-		case k < 17:
-			if len(w.entitled) > 0 {
-				return c15NearMiss(r, w.entitled[r.Intn(len(w.entitled))])
-			}
-			if len(w.entDoms) > 0 {
-				return c15NearMiss(r, c15Addr{"alice", w.entDoms[r.Intn(len(w.entDoms))]})
-			}
-			return c15RandAddr(r)
-		case k == 17:
-			return c15Addr{r.Pick("ali ce", "a\"b", "a\\b", "a,b", "a@b", "<alice>", "(alice)"), c15Domains[r.Intn(len(c15Domains))]}
-		default:
-			return c15AddrVariant(r, c15RandAddr(r))
-		}
-	}
-	trickName := func() string {
-		// display names that look like addresses: an entitled one when possible
-		var a c15Addr
-		if len(w.entitled) > 0 && r.Chance(70) {
-			a = w.entitled[r.Intn(len(w.entitled))]
-		} else {
-			a = pick()
-		}
-		switch r.Intn(6) {
-		case 0:
-			return a.String()
-		case 1:
-			return "<" + a.String() + ">"
-		case 2:
-			return "Alice, <" + a.String() + ">"
-		case 3:
-			return a.String() + ", bob@example.com"
-		case 4:
-			return "\"" + a.String() + "\" <" + a.String() + ">"
-		default:
-			return r.Pick("Alice", "Bob B.", "René Müller", "Дима", "CEO")
-		}
-	}
-
-	// --- MAIL FROM
-	switch k := r.Intn(20); {
-	case k == 0:
-		cs.mailFrom = r.Pick("", "postmaster", "POSTMASTER", "no-at-sign", "@example.org", "alice@", "a@b@example.org")
-	case k == 1:
-		a := pick()
-		cs.mailFrom = a.local + "@" + a.domain + "."
-	default:
-		a := pick()
-		cs.mailFrom = a.String()
-		if r.Chance(5) {
-			cs.mailFrom = c15QuoteLocal(a.local, true) + "@" + a.domain
-		}
-	}
-
-	// --- header
-	c15GenHeader(r, cs, pick, trickName)
-	return cs
-}
-
-// ---- rendering
-
-func c15IsAtext(ch rune) bool {
-	if ch >= 0x80 {
-		return true
-	}
-	if ch >= 'a' && ch <= 'z' || ch >= 'A' && ch <= 'Z' || ch >= '0' && ch <= '9' {
-		return true
-	}
-	return strings.ContainsRune("!#$%&'*+-/=?^_`{|}~", ch)
-}
-
-func c15IsDotAtom(s string) bool {
-	if s == "" || strings.HasPrefix(s, ".") || strings.HasSuffix(s, ".") || strings.Contains(s, "..") {
-		return false
-	}
-	for _, ch := range s {
-		if ch != '.' && !c15IsAtext(ch) {
-			return false
-		}
-	}
-	return true
-}
-
-func c15Quote(s string) string {
-	var b strings.Builder
-	b.WriteByte('"')
-	for _, ch := range s {
-		if ch == '"' || ch == '\\' {
-			b.WriteByte('\\')
-		}
-		b.WriteRune(ch)
-	}
-	b.WriteByte('"')
-	return b.String()
-}
-
-func c15QuoteLocal(local string, force bool) string {
-	if c15IsDotAtom(local) && !force {
-		return local
-	}
-	return c15Quote(local)
-}
-
-type c15Mbox struct {
-	addr  c15Addr
-	name  string
-	style int // 0 bare, 1 angle, 2 atom name, 3 quoted name, 4 encoded-word name, 5 trailing comment
-	fq    bool
-}
-
-func c15IsPhraseAtoms(s string) bool {
-	if s == "" {
-		return false
-	}
-	for _, w := range strings.Split(s, " ") {
-		if w == "" {
-			return false
-		}
-		for _, ch := range w {
-			if !c15IsAtext(ch) || ch >= 0x80 {
-				return false
-			}
-		}
-		if strings.HasPrefix(w, "=?") {
-			return false
-		}
-	}
-	return true
-}
-
-func (m c15Mbox) render(r *vh.Rng, fold func() string) string {
-	spec := c15QuoteLocal(m.addr.local, m.fq) + "@" + m.addr.domain
-	switch m.style {
-	case 1:
-		return "<" + spec + ">"
-	case 2:
-		if c15IsPhraseAtoms(m.name) {
-			return m.name + fold() + "<" + spec + ">"
-		}
-		return c15Quote(m.name) + fold() + "<" + spec + ">"
-	case 3:
-		return c15Quote(m.name) + fold() + "<" + spec + ">"
-	case 4:
-		return c15EncodedWords(r, m.name, fold) + fold() + "<" + spec + ">"
-	case 5:
-		c := strings.Map(func(ch rune) rune {
-			if ch == '(' || ch == ')' || ch == '\\' {
-				return -1
-			}
-			return ch
-		}, m.name)
-		return spec + " (" + c + ")"
-	}
-	return spec
-}
-
-// RFC 2047 encoded words as allowed inside a phrase: every byte that is not a letter or digit is
-// escaped (Q) or the whole chunk is base64 (B); long names are split into several words.
-func c15EncodedWords(r *vh.Rng, name string, fold func() string) string {
-	runes := []rune(name)
-	var words []string
-	for len(runes) > 0 {
-		n := 1 + r.Intn(10)
-		if n > len(runes) {
-			n = len(runes)
-		}
-		chunk := string(runes[:n])
-		runes = runes[n:]
-		if r.Bool() {
-			words = append(words, "=?"+r.Pick("utf-8", "UTF-8")+"?"+r.Pick("b", "B")+"?"+base64.StdEncoding.EncodeToString([]byte(chunk))+"?=")
-			continue
-		}
-		var b strings.Builder
-		for _, c := range []byte(chunk) {
-			switch {
-			case c >= 'a' && c <= 'z' || c >= 'A' && c <= 'Z' || c >= '0' && c <= '9':
-				b.WriteByte(c)
-			case c == ' ':
-				b.WriteByte('_')
-			default:
-				fmt.Fprintf(&b, "=%02X", c)
-			}
-		}
-		words = append(words, "=?utf-8?"+r.Pick("q", "Q")+"?"+b.String()+"?=")
-	}
-	out := ""
-	for i, w := range words {
-		if i > 0 {
-			out += fold()
-		}
-		out += w
-	}
-	return out
-}
-
-func c15GenMbox(r *vh.Rng, a c15Addr, trickName func() string) c15Mbox {
-	m := c15Mbox{addr: a, style: r.Intn(6), fq: r.Chance(8)}
-	if m.style >= 2 {
-		m.name = trickName()
-		if m.style == 4 && m.name == "" {
-			m.style = 1
-		}
-	}
-	return m
-}
-
-// one address-list field value + its ground truth
-func c15GenList(r *vh.Rng, pick func() c15Addr, trickName func() string, nAddr int, single bool) (string, []c15Addr) {
-	fold := func() string {
-		if r.Chance(20) {
-			return r.Pick("\r\n ", "\r\n\t", "  ", "\r\n  ")
-		}
-		return " "
-	}
-	var parts []string
-	var gt []c15Addr
-	remaining := nAddr
-	for remaining > 0 || (nAddr == 0 && len(parts) == 0) {
-		if !single && (nAddr == 0 || r.Chance(15)) {
-			// a group with 0..remaining members
-			k := 0
-			if remaining > 0 {
-				k = 1 + r.Intn(remaining)
-			}
-			var ms []string
-			for i := 0; i < k; i++ {
-				a := pick()
-				gt = append(gt, a)
-				ms = append(ms, c15GenMbox(r, a, trickName).render(r, fold))
-			}
-			remaining -= k
-			gname := r.Pick("team", "undisclosed-recipients", "\"a, b\"", "Friends")
-			parts = append(parts, gname+":"+fold()+strings.Join(ms, ","+fold())+";")
-			if nAddr == 0 {
-				break
-			}
-			continue
-		}
-		a := pick()
-		gt = append(gt, a)
-		parts = append(parts, c15GenMbox(r, a, trickName).render(r, fold))
-		remaining--
-	}
-	return strings.Join(parts, ","+fold()), gt
-}
-
-func c15FieldName(r *vh.Rng, name string) string {
-	switch r.Intn(10) {
-	case 0:
-		return strings.ToUpper(name)
-	case 1:
-		return strings.ToLower(name)
-	case 2:
-		return c15MixCase(r, strings.ToLower(name))
-	}
-	return name
-}
-
-func c15Mutate(r *vh.Rng, v string) string {
-	if v == "" {
-		return r.Pick("<", "@", ",", ";", "\"")
-	}
-	bs := []rune(v)
-	pos := r.Intn(len(bs) + 1)
-	ins := []rune(r.Pick("<", ">", ",", ";", ":", "\"", "(", ")", "@", "\\", " ", ".", "[", "]", "=?utf-8?q?x?="))
-	switch r.Intn(3) {
-	case 0: // insert
-		bs = append(bs[:pos], append(ins, bs[pos:]...)...)
-	case 1: // delete
-		if pos < len(bs) {
-			bs = append(bs[:pos], bs[pos+1:]...)
-		}
-	default: // replace
-		if pos < len(bs) {
-			bs = append(bs[:pos], append(ins, bs[pos+1:]...)...)
-		}
-	}
-	s := string(bs)
-	// keep the field a single (folded) field: no bare CR/LF damage
-	s = strings.ReplaceAll(s, "\r\n", "\x00")
-	s = strings.NewReplacer("\r", "", "\n", "").Replace(s)
-	return strings.ReplaceAll(s, "\x00", "\r\n")
-}
-
-func c15GenHeader(r *vh.Rng, cs *c15Case, pick func() c15Addr, trickName func() string) {
-	type fld struct {
-		name, value string
-		gt          []c15Addr
-		kind        int // 0 other, 1 From, 2 Sender
-	}
-	var fields []fld
-	nFrom := 1
-	switch k := r.Intn(20); {
-	case k == 0:
-		nFrom = 0
-	case k < 4:
-		nFrom = 2
-	case k == 4:
-		nFrom = 3
-	}
-	for i := 0; i < nFrom; i++ {
-		nAddr := 1
-		switch k := r.Intn(20); {
-		case k == 0:
-			nAddr = 0
-		case k < 3:
-			nAddr = 2
-		case k == 3:
-			nAddr = 3
-		}
-		if nAddr == 0 && r.Bool() {
-			fields = append(fields, fld{"From", "", nil, 1}) // empty field
-			continue
-		}
-		v, gt := c15GenList(r, pick, trickName, nAddr, false)
-		fields = append(fields, fld{"From", v, gt, 1})
-	}
-	nSender := 0
-	switch k := r.Intn(20); {
-	case k < 7:
-		nSender = 1
-	case k == 7:
-		nSender = 2
-	}
-	for i := 0; i < nSender; i++ {
-		if r.Chance(5) {
-			fields = append(fields, fld{"Sender", "", nil, 2})
-			continue
-		}
-		v, gt := c15GenList(r, pick, trickName, 1, true)
-		fields = append(fields, fld{"Sender", v, gt, 2})
-	}
-	fields = append(fields, fld{"To", "someone@example.net", nil, 0}, fld{"Subject", "hello", nil, 0})
-	if r.Bool() {
-		fields = append(fields, fld{"Message-ID", "<1@example.net>", nil, 0})
-	}
-	// shuffle
-	for i := len(fields) - 1; i > 0; i-- {
-		j := r.Intn(i + 1)
-		fields[i], fields[j] = fields[j], fields[i]
-	}
-	mutate := r.Chance(10)
-	var b bytes.Buffer
-	for _, f := range fields {
-		v := f.value
-		if mutate && f.kind != 0 && r.Bool() {
-			v = c15Mutate(r, v)
-			cs.gtKnown = false
-		}
-		name := f.name
-		if f.kind != 0 {
-			name = c15FieldName(r, f.name)
-		}
-		sep := ": "
-		if r.Chance(10) {
-			sep = r.Pick(":", ":  ", ":\r\n ", " : ")
-		}
-		if v == "" {
-			sep = ":"
-		}
-		b.WriteString(name + sep + v + "\r\n")
-		switch f.kind {
-		case 1:
-			cs.gtFrom = append(cs.gtFrom, f.gt)
-		case 2:
-			cs.gtSender = append(cs.gtSender, f.gt)
-		}
-	}
-	cs.raw = b.Bytes()
-}
-
-// ---------------------------------------------------------------- replay
-
-func c15ParseOp(op string) (*c15Case, error) {
-	groups := strings.Split(op, " | ")
-	head := strings.Fields(groups[0])
-	if len(head) != 9 || head[0] != "C15" || head[1] != "run" {
-		return nil, fmt.Errorf("bad head")
-	}
-	cs := &c15Case{checkHeader: head[2] == "1", ua: head[3], na: head[4], ea: head[5], conn: head[6] == "1",
-		user: vh.UnhexRunes(head[7]), mailFrom: vh.UnhexRunes(head[8]), authNorm: "auto", fromNm: "auto"}
-	cs.prep.kind, cs.u2e.kind = "I", "I"
-	unAddr := func(t string) c15Addr {
-		p := strings.SplitN(t, "/", 2)
-		return c15Addr{vh.UnhexRunes(p[0]), vh.UnhexRunes(p[1])}
-	}
-	for _, g := range groups[1:] {
-		t := strings.Fields(g)
-		if len(t) == 0 {
-			continue
-		}
-		switch t[0] {
-		case "N":
-			cs.authNorm, cs.fromNm = t[1], t[2]
-		case "P":
-			cs.prep.kind, cs.prep.err = t[1], t[2] == "1"
-		case "U":
-			cs.u2e.kind, cs.u2e.err = t[1], t[2] == "1"
-		case "p", "u":
-			var vs []string
-			for _, x := range t[2:] {
-				vs = append(vs, vh.UnhexRunes(x))
-			}
-			tab := &cs.prep
-			if t[0] == "u" {
-				tab = &cs.u2e
-			}
-			if tab.rows == nil {
-				tab.rows = map[string][]string{}
-			}
-			k := vh.UnhexRunes(t[1])
-			tab.keys = append(tab.keys, k)
-			tab.rows[k] = vs
-		case "H":
-			cs.raw = vh.UnhexBytes(t[1])
-		case "G":
-			cs.gtKnown = t[1] == "1"
-		case "GF", "GS":
-			var as []c15Addr
-			for _, x := range t[1:] {
-				as = append(as, unAddr(x))
-			}
-			if t[0] == "GF" {
-				cs.gtFrom = append(cs.gtFrom, as)
-			} else {
-				cs.gtSender = append(cs.gtSender, as)
-			}
-		}
-	}
-	if _, ok := authz.NormalizeFuncs[cs.authNorm]; !ok {
-		return nil, fmt.Errorf("bad norm")
-	}
-	if _, ok := authz.NormalizeFuncs[cs.fromNm]; !ok {
-		return nil, fmt.Errorf("bad norm")
-	}
-	return cs, nil
-}
-
-// ---------------------------------------------------------------- fixed scenarios (always run)
-
-func c15Fixed() []*c15Case {
-	mk := func(user, mailFrom string, u2e c15Tab, hdr string, gtFrom [][]c15Addr, gtSender [][]c15Addr) *c15Case {
-		cs := &c15Case{checkHeader: true, ua: "r", na: "r", ea: "r", authNorm: "auto", fromNm: "auto", conn: true,
-			user: user, mailFrom: mailFrom, u2e: u2e, raw: []byte(hdr), gtKnown: true, gtFrom: gtFrom, gtSender: gtSender}
-		cs.prep.kind = "I"
-		return cs
-	}
-	ident := c15Tab{kind: "I"}
-	alice := c15Addr{"alice", "example.org"}
-	bob := c15Addr{"bob", "example.com"}
-	var st c15Tab
-	st.kind = "S"
-	st.add("alice", "alice@example.org", "corp.example.net")
-	return []*c15Case{
-		// the upstream integration cases: own address, someone else's address
-		mk("alice@example.org", "alice@example.org", ident, "From: <alice@example.org>\r\n", [][]c15Addr{{alice}}, nil),
-		mk("alice@example.org", "bob@example.com", ident, "From: <bob@example.com>\r\n", [][]c15Addr{{bob}}, nil),
-		// DESIGN §6 (m): two From fields, first entitled, second not — and the opposite order
-		mk("alice@example.org", "alice@example.org", ident, "From: <alice@example.org>\r\nFrom: <bob@example.com>\r\n", [][]c15Addr{{alice}, {bob}}, nil),
-		mk("alice@example.org", "alice@example.org", ident, "From: <bob@example.com>\r\nFrom: <alice@example.org>\r\n", [][]c15Addr{{bob}, {alice}}, nil),
-		// From not the user's, Sender is; two Sender fields, first entitled, second not
-		mk("alice@example.org", "alice@example.org", ident, "From: <bob@example.com>\r\nSender: <alice@example.org>\r\n", [][]c15Addr{{bob}}, [][]c15Addr{{alice}}),
-		mk("alice@example.org", "alice@example.org", ident, "From: <bob@example.com>\r\nSender: <alice@example.org>\r\nSender: <bob@example.com>\r\n", [][]c15Addr{{bob}}, [][]c15Addr{{alice}, {bob}}),
-		// display-name trick, group, domain wildcard, missing From
-		mk("alice@example.org", "alice@example.org", ident, "From: \"alice@example.org\" <bob@example.com>\r\n", [][]c15Addr{{bob}}, nil),
-		mk("alice", "alice@example.org", st, "From: team: x@corp.example.net;\r\n", [][]c15Addr{{{"x", "corp.example.net"}}}, nil),
-		mk("alice", "ALICE@EXAMPLE.ORG", st, "To: x@example.net\r\n", nil, nil),
-		mk("", "alice@example.org", ident, "From: <alice@example.org>\r\n", [][]c15Addr{{alice}}, nil),
-	}
-}
-
-// ---------------------------------------------------------------- entry point
 
 func TestVerifC15(t *testing.T) {
 	out := vh.Open("c15")
 	defer out.Close()
 	if ops := vh.Replay(); ops != nil {
 		for _, op := range ops {
-			if !strings.HasPrefix(op, "C15 ") {
+			if !strings.HasPrefix(op, "C15 run ") {
 				continue
 			}
-			cs, err := c15ParseOp(op)
+			cs, _, err := vc15.ParseOp(op)
 			if err != nil {
 				out.Note("unparsable replay op: " + err.Error())
 				continue
@@ -1384,12 +290,13 @@ func TestVerifC15(t *testing.T) {
 		}
 		return
 	}
-	for _, cs := range c15Fixed() {
+	c15Facts(out)
+	for _, cs := range vc15.Fixed() {
 		c15Do(out, cs)
 	}
 	r := vh.NewRng(vh.Seed() + 15)
 	n := vh.N(5000)
 	for i := 0; i < n; i++ {
-		c15Do(out, c15GenCase(r.Fork()))
+		c15Do(out, vc15.GenCase(r.Fork(), false))
 	}
 }
